@@ -251,7 +251,11 @@ void DocumentBuilder::proc_edge_begin(const char* from, const char* to, const bo
     }
 }
 
-void DocumentBuilder::proc_edge_end(const char* from, const char* to) { popFrame(); }
+void DocumentBuilder::proc_edge_end(const char* from, const char* to)
+{
+    popFrame();
+    currentEdge = nullptr;  // labels of a later edge that cannot be created must not land on this one
+}
 
 void DocumentBuilder::proc_select(const char* id)
 {
